@@ -9,7 +9,7 @@ open Kaira.Codes
 /-- Hamming weight of the low `n` coordinates -/
 def weight : Nat → Nat → Nat
   | 0, _ => 0
-  | n+1, x => x % 2 + weight n (x / 2)
+  | n+1, x => weight n x + (if x.testBit n then 1 else 0)
 
 /-- minimum of `w (acc ⊕ ⨁ chosen rows)` over all row subsets that (together with the flag `ne`)
 are non-empty; `top` when there is none -/
